@@ -342,6 +342,15 @@ func c18Inputs(c *core.Ctx, n int) []c18Input {
 			}
 		}
 	}
+	// a malformed line directly followed by something the reader cannot deliver (a line beyond the line buffer, a
+	// read error before the next line end): the first error of the callback parser is the malformed line
+	for k, bad := range []string{"  x: abc", "  no separator", "  y: 1,5"} {
+		long := "a:\n  fine: 1\n" + bad + "\n  # " + strings.Repeat("n", 66000+k) + "\nb:\n  y: 2\n"
+		ins = append(ins, c18Input{class: "malformed-then-long-line", text: long, limit: -1, chunk: []int{0, 7, 64}[k]})
+		short := "a:\n  fine: 1\n" + bad + "\n  next: 2\nb:\n  y: 2\n"
+		at := strings.Index(short, bad) + len(bad) + 1
+		ins = append(ins, c18Input{class: "malformed-then-read-error", text: short, limit: at + k, chunk: []int{0, 1, 7}[k], partial: k == 1})
+	}
 	// seekable readers handed over at an offset > 0 (a header block already consumed by the caller)
 	for i := 0; i < n/25+2; i++ {
 		r := c.Rng("resumed", i)
